@@ -195,9 +195,25 @@ fn run_real(op: &Value) -> Value {
     };
     if ctx == "coroutine" {
         let (tx, rx) = std::sync::mpsc::channel();
+        let after_recv = op["after_recv"].as_bool().unwrap_or(false);
         let h = EventLoops::submit_task(
             None,
             move |_| {
+                if after_recv {
+                    // a hooked recv that has to wait for its data first: the readiness event resumes
+                    // the coroutine before the wait slice it parked with has run out
+                    let mut fds = [0 as libc::c_int; 2];
+                    let rc = unsafe { libc::socketpair(libc::AF_UNIX, libc::SOCK_STREAM, 0, fds.as_mut_ptr()) };
+                    if rc == 0 {
+                        let peer = fds[1];
+                        let _ = std::thread::spawn(move || {
+                            std::thread::sleep(std::time::Duration::from_millis(3));
+                            let _ = unsafe { libc::write(peer, b"x".as_ptr().cast(), 1) };
+                        });
+                        let mut b = [0u8; 1];
+                        let _ = syscall::recv(None, fds[0], b.as_mut_ptr().cast(), 1, 0);
+                    }
+                }
                 let r = measure();
                 let _ = tx.send(r);
                 None
